@@ -31,7 +31,7 @@ Definition portable_selexpr (se : selexpr) : bool :=
   | SelExpr e _ win => pe e && match win with Some (WQuery w) => portable_window w | _ => true end
   end.
 Definition portable_holder (h : holder query) : bool :=
-  match h with HEmpty => true | HCond c => pe (to_simple_expr c) end.
+  match h with HEmpty => true | HChain _ => false | HCond c => pe (to_simple_expr c) end.
 Definition portable_tref (t : tref) : bool :=
   match t with
   | TPlain _ => true
@@ -75,7 +75,7 @@ Proof. intros H. rewrite forallb_forall in H. apply map_ext_in. intros e Hin. no
 
 Lemma rholder_agree kw h : portable_holder h = true ->
   rholder is_alpha b1 T1 rq1 kw h = rholder is_alpha b2 T2 rq2 kw h.
-Proof. destruct h as [|c]; [reflexivity|]. cbn [portable_holder]. intros H. unfold rholder. now rewrite (rex_agree _ H). Qed.
+Proof. destruct h as [|ms|c]; [reflexivity|intros H; discriminate H|]. cbn [portable_holder]. intros H. unfold rholder. now rewrite (rex_agree _ H). Qed.
 
 Lemma rorder_field_agree e vs : pe e = true ->
   rorder_field is_alpha b1 T1 rq1 e vs = rorder_field is_alpha b2 T2 rq2 e vs.
